@@ -79,6 +79,10 @@ CHECKS = {
    technique="free-running executions (no gates, no hooks) of the scenario universe of QueryLifecycle.tla / Pool.tla on the real client and pool in a binary built with the Go race detector; TLC model-checks the universe with the foreign Close enabled and decides for every observed outcome whether the model can reach it (Outcome_QL.tla reachability search); the race verdict itself is the race detector's - a data race is below the granularity a TLA+ action model can state",
    text="~400 (quick) / ~2500 (thorough) free-running query runs - select / insert / streamed insert with progress, profile events and logs arriving while blocks are sent, OpenTelemetry instrumentation on and off, compression modes, a foreign goroutine calling Close, the caller cancelling, a Ping afterwards - and shared-pool runs (6-8 goroutines, health check every 0.3-0.5 ms, lifetimes of 1-3 ms, Close while in use) under -race: any report whose two accesses are library code is a violation; every distinct (configuration, outcome) pair must be reachable in QueryLifecycle.tla; pool runs must satisfy NoPanic and AllClosedAfterClose.",
    note="Trusted: the Go race detector (reports races of observed executions only; schedules are whatever the Go scheduler produces under harness jitter, not enumerated); TLC; reports involving harness code make the check inconclusive."),
+ "C06": dict(engine="Wire", category="fault_enumeration", design_ref="DESIGN.md §5 C06",
+   technique="systematic mutation of valid encodings at every byte position (boundary bytes, 8- and 4-byte little-endian windows with 0 / +-1 / boundary / huge values, forged multi-byte varints, deletions, doublings, splices, bit flips, noise) decoded by the real library in a memory-limited, watchdog-supervised child process; every panic, abort, hang, inconsistent result, a sample of the accepted mutants and per-target counts are trace lines validated by TLC, which decodes the accepted mutants with the TLA+ wire specification (Wire.tla) and requires the library's values to be the specification's wherever it accepts the same bytes",
+   text="~270 targets (170 column types as 1- and 3-row blocks through typed targets with Row(i) for every row, a third of them also through inference + re-encoding, nine protocol messages at two revisions) x ~4 000 mutants each = 10^6 decodes (quick) / ~460 types, 3x the random classes (thorough): no panic, no hang (90 s watchdog), no abort under an 8 GiB address-space limit (confirmed alone under 40 GiB), row counts equal to the block's, every row readable; ~3 800 lines validated by TLC.",
+   note="Trusted: TLC; the harness' mutation engine and its walker of valid payloads (which skips the ~1.5% of mutants whose count fields read 4*10^6..10^8: the library's own caps admit them and it allocates gigabytes by design); RLIMIT_AS as the stand-in for a machine's memory; only a sample of accepted mutants is cross-decoded by the specification."),
  "C14": dict(engine="Writer", category="model_checking", design_ref="DESIGN.md §5 C14",
    technique="TLA+ model of the vectored writer with explicit backing arrays (TLC exhaustive) + every bounded operation sequence executed on the real proto.Writer and validated by TLC (trace validation)",
    text="Exhaustive at the stated sequence length over a 12-operation alphabet, plus random long sequences; each Flush's delivered bytes are compared by TLC with the specification's pending contents.",
